@@ -52,6 +52,43 @@ theorem shapes_are_canonical :
     ∧ Gen.statsShape = ⟨true, [("max", "max"), ("mean", "mean"), ("median", "median"), ("min", "min"), ("std", "std"), ("sum", "sum")], true⟩ := by
   decide
 
+/-- every operator resolves its layers the same way: an explicit `data_vars` is only validated and then used as
+    passed; the default is every variable of the dataset in order, and the operators with a reference layer take the
+    reference variable out by comparing the names *by value* (`list.remove`, `!=`) -- never by object identity
+    (`var is not ref_var`, true of an equal name that is another string object) -/
+theorem selection_is_by_value :
+    Gen.localSelects = [("cell_stats", ⟨true, false, true, true, .byValue⟩), ("combine", ⟨true, false, true, true, .byValue⟩),
+      ("lesser_frequency", ⟨true, true, true, true, .byValue⟩), ("equal_frequency", ⟨true, true, true, true, .byValue⟩),
+      ("greater_frequency", ⟨true, true, true, true, .byValue⟩), ("lowest_position", ⟨true, false, true, true, .byValue⟩),
+      ("highest_position", ⟨true, false, true, true, .byValue⟩), ("popularity", ⟨true, true, true, true, .byValue⟩),
+      ("rank", ⟨true, true, true, true, .byValue⟩)] := by decide
+
+/-- "the data layers" of the property, for the selection found in the source of every operator: an explicit
+    `data_vars` is taken as given (order and repetitions); left at its default it is every variable of the dataset in
+    dataset order -- without the reference variable, whatever string object names it: the reference layer is never
+    among the data layers, every other variable is, and the order is the dataset's -/
+theorem selected_layers (names : List String) (hnd : names.Nodup) :
+    ∀ p ∈ Gen.localSelects,
+      (∀ ref dv, selectS p.2 names ref (some dv) = dv)
+      ∧ selectS p.2 names none none = names
+      ∧ ∀ r, selectS p.2 names (some r) none = names.filter (· != r)
+          ∧ r ∉ selectS p.2 names (some r) none
+          ∧ ∀ v ∈ names, v ≠ r → v ∈ selectS p.2 names (some r) none := by
+  intro p hp
+  rw [selection_is_by_value] at hp
+  have hsel : ∀ r, names.erase r = names.filter (· != r) := fun r => hnd.erase_eq_filter r
+  simp only [List.mem_cons, List.not_mem_nil, or_false] at hp
+  rcases hp with rfl | rfl | rfl | rfl | rfl | rfl | rfl | rfl | rfl <;>
+    refine ⟨fun _ _ => rfl, rfl, fun r => ⟨hsel r, hnd.not_mem_erase, fun v hv hne => ?_⟩⟩ <;>
+    exact (hnd.mem_erase_iff).2 ⟨hne, hv⟩
+
+/-- non-vacuity, and what the theorem excludes: by value the reference is taken out; a selection that compared the
+    names by identity would keep it among the data layers -/
+example : selectS ⟨true, true, true, true, .byValue⟩ ["a", "ref", "b"] (some "ref") none = ["a", "b"]
+    ∧ selectS ⟨false, true, true, true, .other "var is not ref_var"⟩ ["a", "ref", "b"] (some "ref") none = ["a", "ref", "b"]
+    ∧ selectS ⟨true, true, true, true, .byValue⟩ ["a", "ref", "b"] (some "ref") (some ["b", "b", "a"]) = ["b", "b", "a"] := by
+  decide
+
 /-- the interpretation of the shapes found in the source is the hand model -/
 theorem generated_freq_is_model :
     freqCellS Gen.lesserShape = lesserCell ∧ freqCellS Gen.equalShape = equalCell ∧ freqCellS Gen.greaterShape = greaterCell := by
